@@ -537,6 +537,17 @@ impl Wallet {
         self.available_balance
     }
 
+    /// the part of the balance that `generate_slips` can draw on right now: slips that are about
+    /// to leave the genesis period are skipped there
+    pub fn get_usable_balance(&self, latest_block_id: u64, genesis_period: u64) -> Currency {
+        let limit = latest_block_id.saturating_sub(genesis_period.saturating_sub(1));
+        self.unspent_slips
+            .iter()
+            .filter_map(|key| self.slips.get(key))
+            .filter(|slip| slip.block_id > limit)
+            .fold(0, |total: Currency, slip| total.saturating_add(slip.amount))
+    }
+
     pub fn get_unspent_slip_count(&self) -> u64 {
         self.unspent_slips.len() as u64
     }
